@@ -90,3 +90,28 @@ Definition canonical (f : font) : bool :=
   && (0 <? f_cap f) && (0 <? f_xh f)
   && (f_upos f mod 65536 =? 0) && (f_uthick f mod 65536 =? 0)
   && (is_some (f_gsub f) || negb (is_some (std_ligatures f))).
+
+(* ---- clause (b): what the per-table decoders guarantee about their output
+   (os2.Read: the BOLD/ITALIC selection bits are only reported without
+   REGULAR, one of four permissions, cap/x height only when positive;
+   head.Read: 32-bit revision, 0 decodes to "unset"; VersionFromString
+   returns a uint32) ---- *)
+Definition os2_decoded (o : t_os2) : bool :=
+  negb (o_regular o && (o_bold o || o_italic o))
+  && ((o_perm o =? 0) || (o_perm o =? 1) || (o_perm o =? 2) || (o_perm o =? 3))
+  && (0 <=? o_cap o) && (0 <=? o_xh o).
+
+Definition head_decoded (h : t_head) : bool :=
+  (h_rev h <? 4294967296)%N && time_representable (h_created h) && time_representable (h_modified h).
+
+Definition tables_decoded (t : tables) : bool :=
+  match t_o2 t with Some o => os2_decoded o | None => true end
+  && match t_hd t with Some h => head_decoded h | None => true end.
+
+(* recorded finding (open): a weight class that rounds to Bold without any
+   bold flag — Write will spell "Bold" into the sub-family name *)
+Definition bold_settled (f : font) : bool := if name_says_bold f then f_bold f else true.
+
+(* underline metrics that only the CFF table carries must be integral *)
+Definition underline_settled (f : font) : bool :=
+  (f_upos f mod 65536 =? 0) && (f_uthick f mod 65536 =? 0).
